@@ -96,6 +96,9 @@ def _is_contents_iter(it):
 
 
 def run(ctx):
+    # contents are keyed by Substance objects: the key laws this property's bookkeeping relies on
+    from .identity import identity_discipline as _identity
+    _identity(ctx, 'C02.R1', classes=('Substance',), memoised=False)
     model = ctx.model
     tr = model.func('Container._transfer')
     ff = ctx.flow('Container._transfer')
